@@ -18,6 +18,10 @@ def run(ctx, L, tier):
     generators(ctx, L)
     one_processor(ctx, L)
     reevaluation(ctx, L)
+    from . import c20
+    c20.shared_state(ctx, L)        # no state that survives from one compiled file / call to the next (module, class, closure, default argument)
+    from . import c20 as _c20
+    _c20.output_names(ctx, L)         # generated files are named after the input's base name; includes refer to them by the same stem
     return sorted(set(o.rule for o in L.obligations))
 
 
@@ -197,61 +201,5 @@ def one_processor(ctx, L):
 
 
 def reevaluation(ctx, L):
-    """The definitions of an included file are shared by every includer and `evaluate_sizes` walks them again for each one
-    (Include.members recursion). The slot-size and block-alignment steps rewrite a member's byte_size / alignment in terms of
-    their previous value, so a second walk is only harmless if every walk first resets both from the member's type: every
-    path through evaluate_member_size that reports success must have assigned both attributes from values that do not depend
-    on them."""
-    m = ctx.py.mod('prophyc.model')
-    es = m.func('evaluate_sizes')
-    recurses = any(isinstance(n, ast.Call) and unparse(n.func) == 'evaluate_sizes' for n in es.walk())
-    selfupd = set()
-    for q in ('evaluate_sizes.evaluate_array_and_optional_size', 'evaluate_sizes.evaluate_partial_padding_size'):
-        g = m.func(q)
-        for a in g.walk():
-            if isinstance(a, (ast.Assign, ast.AugAssign)):
-                tg = a.targets[0] if isinstance(a, ast.Assign) else a.target
-                if isinstance(tg, ast.Attribute) and (isinstance(a, ast.AugAssign) or any(
-                        isinstance(x, ast.Attribute) and x.attr == tg.attr for x in ast.walk(a.value))):
-                    selfupd.add(tg.attr)
-    L.check(recurses and selfupd == {'byte_size', 'alignment'}, 'C16e.reevaluation-reset', 'evaluate_sizes|self-updates', es.site(),
-            'inventory: evaluate_sizes re-walks Include.members and the slot/block steps rewrite byte_size and alignment from their '
-            'previous values (found: recursion %s, self-updated attributes %s)' % (recurses, sorted(selfupd)), '')
-    f = m.func('evaluate_sizes.evaluate_member_size')
-    mem = f.params[1]
-
-    def resets(stmts, upto, need):
-        """attributes of `mem` assigned afresh by the statements preceding `upto` in this block"""
-        got = set()
-        for st in stmts:
-            if st is upto:
-                break
-            if isinstance(st, ast.Assign):
-                tgs = []
-                for t in st.targets:
-                    tgs += list(t.elts) if isinstance(t, ast.Tuple) else [t]
-                dep = any(isinstance(x, ast.Attribute) and x.attr in need and unparse(x.value) == mem for x in ast.walk(st.value))
-                for t in tgs:
-                    if isinstance(t, ast.Attribute) and unparse(t.value) == mem and t.attr in need and not dep:
-                        got.add(t.attr)
-        return got
-
-    n = 0
-    for r in [x for x in f.walk() if isinstance(x, ast.Return)]:
-        if isinstance(r.value, ast.Constant) and not r.value.value:
-            continue
-        n += 1
-        got = set()
-        node = r
-        while node is not f.node:
-            par = m.parent(node)
-            for field in ('body', 'orelse', 'finalbody'):
-                blk = getattr(par, field, None)
-                if isinstance(blk, list) and node in blk:
-                    got |= resets(blk, node, selfupd)
-            node = par
-        L.check(selfupd <= got, 'C16e.reevaluation-reset', 'evaluate_member_size|%s' % norm_key(f, r), f.site(r),
-                'evaluate_member_size reports success on a path that has not reset %s of the member: when the file is walked again '
-                'for another includer, the array/optional slot step multiplies the already multiplied size (sizes of included structs '
-                'grow with every inclusion and differ from the single-file compilation)' % sorted(selfupd - got), ws(unparse(r)))
-    L.floor('C16e.reevaluation-reset', n, 1)
+    from . import shared_model as M
+    M.reevaluation(ctx, L)
